@@ -27,7 +27,9 @@ type fkv struct {
 func runC04Float(c FloatMapCase, o *vk.Obs) string {
 	m := omap.New[float64, int]()
 	var ref []fkv
-	lower := func(k float64) int { return sort.Search(len(ref), func(i int) bool { return cmp.Compare(ref[i].k, k) >= 0 }) }
+	lower := func(k float64) int {
+		return sort.Search(len(ref), func(i int) bool { return cmp.Compare(ref[i].k, k) >= 0 })
+	}
 	find := func(k float64) (int, bool) {
 		i := lower(k)
 		return i, i < len(ref) && cmp.Compare(ref[i].k, k) == 0
